@@ -23,11 +23,11 @@ CHECKS = {
    note="Trusted: the runner seams; generators' shapes bound what can be found (listed in the evidence); scenarios inside open C08 findings are excluded.",
    technique="deterministic simulation across build configurations: same seed/tape/fault plan replayed in every build, history equality against the checked build"),
  "C16": dict(level="exploration", ref="DESIGN.md section 4 (C16)",
-   text="Seeded search over allocation histories: generated loop programs with a bounded live set (ring of slots, optional transient spikes) and random subsets of 35 kinds of per-iteration garbage, with caught injected failures at PRNG-chosen dynamic occurrences inside the loop body, run under the real threshold pacing of the release build while a monitor fed by the hook's allocation/collection event stream checks at EVERY allocation the stated byte bound (heap <= max(64 KiB, 2 x live after the previous collection) + this allocation, with byte totals recomputed from the object list) and accounting consistency, and over the history compares object counts and rooted-object counts after a final collection between N and 2N iterations, pacing liveness, and the program result against a never-collect run. A clean batch is evidence, not proof.",
+   text="Seeded search over allocation histories: generated loop programs with a bounded live set (ring of slots, optional transient spikes) and random subsets of 35 kinds of per-iteration garbage, with caught injected failures at PRNG-chosen dynamic occurrences inside the loop body, run under the real threshold pacing of the release build while a monitor fed by the hook's allocation/collection event stream checks at EVERY allocation the stated byte bound (heap <= max(64 KiB, 2 x live after the previous collection) + this allocation, with byte totals recomputed from the object list) and accounting consistency, and over the history compares object counts and rooted-object counts after a final collection between N and 2N iterations, pacing liveness, and the program result against a never-collect run; absolute invariants at quiescence (fiber objects alive = reachable ones) and across a dropped interpreter / reset rounds; a family of loop bodies made of built-in calls with awkward arguments (error paths of natives). A clean batch is evidence, not proof.",
    note="Trusted: the observe-only hooks (event stream, statistics, force-collect) and the runner's monitor. The bound is on yarel's own accounting unit (shallow object sizes).",
    technique="deterministic simulation with fault injection: invariant monitor over the allocation/collection event stream under native pacing, conservation check N vs 2N iterations, injected caught failures in the loop body"),
  "C01": dict(level="exploration", ref="DESIGN.md section 4 (C01)",
-   text="The simulator owns the collection schedule: every generated heap-shape program (retention chains root -> edges -> target in which the chain is the only path to the target, over catalogues of 19 edge kinds, 17 target kinds and 18 root kinds incl. suspended/calling/dropped fibers, open captured variables, module attributes, values in flight through finally/unwinding; plus 39 operations that make the interpreter hold fresh objects mid-operation) runs under never-collect (reference), collect-at-every-allocation and a PRNG collection tape, with reclaimed objects quarantined so that every dereference of a prematurely reclaimed object and every access through an open captured variable into a reclaimed fiber stack is recorded. Oracle: zero use-after-reclaim events, identical histories across schedules, no panic. The schedule dimension is closed by dominance (collect-always sees what any schedule can see); heap shapes are sampled: evidence, not proof.",
+   text="The simulator owns the collection schedule: every generated heap-shape program (retention chains root -> edges -> target in which the chain is the only path to the target, over catalogues of 19 edge kinds, 17 target kinds and 18 root kinds incl. suspended/calling/dropped fibers, open captured variables, module attributes, values in flight through finally/unwinding; plus 39 operations that make the interpreter hold fresh objects mid-operation) runs under never-collect (reference), collect-at-every-allocation and a PRNG collection tape, with reclaimed objects quarantined so that every dereference of a prematurely reclaimed object and every access through an open captured variable into a reclaimed fiber stack is recorded. Oracle: zero use-after-reclaim events, identical histories across schedules, no panic. The schedule dimension is closed by dominance (collect-always sees what any schedule can see); heap shapes are sampled: evidence, not proof. The repository's script corpus and generated programs calling every built-in with awkward arguments run under the same schedules and monitors.",
    note="Trusted: the verif_hooks quarantine and monitor (add-only hooks in memory.rs/object.rs); a premature reclaim is only visible if the program touches the object again (every gadget reads its target back); real free() is not exercised.",
    technique="deterministic simulation: simulator-owned GC schedule (never/always/tape) with quarantine, use-after-reclaim monitor on every managed dereference, no-object-reclaimed-while-borrowed invariant at every sweep, differential history comparison against the never-collect run"),
  "C12": dict(level="exploration", ref="DESIGN.md section 4 (C12)",
@@ -39,7 +39,7 @@ CHECKS = {
    note="Trusted: the module-system reference model, the runner's loader/printer seams. Open by the property (import of a module whose body failed part-way): executed, must not crash or re-run the body, not compared (counted).",
    technique="deterministic simulation with fault injection: simulated file system with per-read faults behind the module-loader seam, tape-driven import schedule incl. suspension mid-load, reference-model history equality"),
  "C15": dict(level="fault_enumeration", ref="DESIGN.md section 4 (C15)",
-   text="Seeded generation of REPL-style sessions on one interpreter; within each session every single crash point (each dynamic fault point of the crash-free run fails once: top level, nested calls, methods, fibers, nested fibers, try/finally, imported module bodies) is enumerated when the session has <= 30 of them, plus sampled multi-crash plans, uncaught throws at several depths, non-compiling snippets and Vm::reset as generated operations; each plan runs in the checked and release builds and is compared snippet-by-snippet with a session reference model, and the suffix after the last reset is replayed on a fresh interpreter (model-free metamorphic check). Evidence, not proof: sessions are sampled.",
+   text="Seeded generation of REPL-style sessions on one interpreter; within each session every single crash point (each dynamic fault point of the crash-free run fails once: top level, nested calls, methods, fibers, nested fibers, try/finally, imported module bodies) is enumerated when the session has <= 30 of them, plus sampled multi-crash plans, uncaught throws at several depths, non-compiling snippets and Vm::reset as generated operations; each plan runs in the checked and release builds and is compared snippet-by-snippet with a session reference model, and the suffix after the last reset is replayed on a fresh interpreter (model-free metamorphic check); in addition every script of the repository's corpus is the first program of two model-free sessions ([A, reset, B] and [A, probe]) whose last program must behave exactly as on a new interpreter. Evidence, not proof: sessions are sampled.",
    note="Trusted: the session model and the runner's seams. Left open by the property and therefore executed without comparison (counted): later use of fibers that were active when a snippet failed, re-import of a module whose body failed.",
    technique="deterministic simulation with fault injection: crash points injected through a host-native fault point into session histories on one Vm, session reference model + reset-vs-fresh metamorphic replay, single-crash enumeration per session"),
  "C09": dict(level="exploration", ref="DESIGN.md section 4 (C09)",
